@@ -30,6 +30,27 @@ var c16Coords = []float64{0, math.Copysign(0, -1), 0.1, -1e300, 4.9e-324, 123456
 var c16Names = []string{"", "a", "inner  spaces kept", strings.Repeat("x", 25) + strings.Repeat("Z", 25), "trailing tab\t", "\r\nleading line break", "10\u00a0km\u00a0"}
 var c16Floats = []float64{0.5, 1.0 / 3.0, -123456.0625, 12345678901234567.0, 0.00000000005}
 
+// integer attribute values beyond TLC's 32-bit integers travel as small markers: -2 is 9999999999 (the largest value of a
+// ten-digit field), -3 is 2147483648 (one more than the largest 32-bit integer)
+func c16ID(code int) int {
+	switch code {
+	case -2:
+		return 9999999999
+	case -3:
+		return 2147483648
+	}
+	return code
+}
+func c16IDBack(v int) int {
+	switch v {
+	case 9999999999:
+		return -2
+	case 2147483648:
+		return -3
+	}
+	return v
+}
+
 func c16CoordDec(v interface{}) float64 { return c16Coords[num(v)-1] }
 func c16CoordEnc(f float64) interface{} {
 	for i, c := range c16Coords {
@@ -320,7 +341,7 @@ func runC16(c map[string]interface{}) []Event {
 			if str(gm["t"]) != "nil" {
 				g = decGeom(gm, c16CoordDec)
 			}
-			id, name, val := num(r["id"]), c16Names[num(r["name"])-1], c16Floats[num(r["val"])-1]
+			id, name, val := c16ID(num(r["id"])), c16Names[num(r["name"])-1], c16Floats[num(r["val"])-1]
 			written = append(written, val)
 			e["out"] = safely(func() {
 				var err error
@@ -375,7 +396,7 @@ func runC16(c map[string]interface{}) []Event {
 						if !rv.Field(0).IsNil() {
 							e["g"] = encGeom(rv.Field(0).Interface().(geom.Geom), c16CoordEnc)
 						}
-						e["id"], e["name"] = int(rv.Field(1).Int()), nameIndex(rv.Field(3).String())
+						e["id"], e["name"] = c16IDBack(int(rv.Field(1).Int())), nameIndex(rv.Field(3).String())
 						got = rv.Field(2).Float()
 					}
 				} else if api == "struct2" {
@@ -386,7 +407,7 @@ func runC16(c map[string]interface{}) []Event {
 						if rec.Geom != nil {
 							e["g"] = encGeom(rec.Geom, c16CoordEnc)
 						}
-						e["id"], e["name"] = rec.IDENTIFIER, nameIndex(rec.NAME)
+						e["id"], e["name"] = c16IDBack(rec.IDENTIFIER), nameIndex(rec.NAME)
 						got = rec.Measurement
 					}
 				} else if api == "fields2" {
@@ -400,7 +421,7 @@ func runC16(c map[string]interface{}) []Event {
 						if err != nil {
 							id = -424242
 						}
-						e["id"] = int(id)
+						e["id"] = c16IDBack(int(id))
 						e["name"] = nameIndex(strings.TrimRight(fields["name"], " "))
 						got, err = strconv.ParseFloat(strings.TrimSpace(fields["MEASUREMENT"]), 64)
 						if err != nil {
@@ -415,7 +436,7 @@ func runC16(c map[string]interface{}) []Event {
 						if rec.Geom != nil {
 							e["g"] = encGeom(rec.Geom, c16CoordEnc)
 						}
-						e["id"], e["name"] = rec.Id, nameIndex(rec.NAME)
+						e["id"], e["name"] = c16IDBack(rec.Id), nameIndex(rec.NAME)
 						got = rec.V
 					}
 				} else {
@@ -429,7 +450,7 @@ func runC16(c map[string]interface{}) []Event {
 						if err != nil {
 							id = -424242
 						}
-						e["id"] = int(id)
+						e["id"] = c16IDBack(int(id))
 						e["name"] = nameIndex(strings.TrimRight(fields["NAME"], " "))
 						got, err = strconv.ParseFloat(strings.TrimSpace(fields["Value"]), 64)
 						if err != nil {
